@@ -113,6 +113,32 @@ def run(ctx):
                     and url_arg.value.attr == 'url_info':
                 # `<request>.url_info.url`: the request's parsed form (Request.url itself is the caller's spelling)
                 ok = True
+            if isinstance(url_arg, ast.Name) and not ok:
+                # a normal-form base joined with a fully quoted path segment is in normal form itself (the join resolves dot
+                # segments, the quoting writes upper-case escapes for everything outside the unreserved set)
+                def quoted_(e, depth=0):
+                    if e is None or depth > 4:
+                        return False
+                    if isinstance(e, ast.BinOp):
+                        return quoted_(e.left, depth + 1) and (isinstance(e.right, ast.Constant) or quoted_(e.right, depth + 1))
+                    if isinstance(e, ast.Call):
+                        return (dotted(e.func) or '').split('.')[-1] == 'quote' and any(
+                            k.arg == 'safe' and isinstance(k.value, ast.Constant) and k.value.value == '' for k in e.keywords)
+                    if isinstance(e, ast.Name):
+                        ds_ = [v for v, k, st in defs.get(e.id, []) if k == 'assign']
+                        return bool(ds_) and all(quoted_(v, depth + 1) for v in ds_)
+                    return False
+
+                def normal_base(e):
+                    if isinstance(e, ast.Name):
+                        ds_ = [v for v, k, st in defs.get(e.id, []) if k == 'assign']
+                        return bool(ds_) and all(normal_base(v) for v in ds_)
+                    return isinstance(e, ast.Attribute) and e.attr == 'url' and isinstance(e.value, ast.Attribute) and e.value.attr == 'url_info'
+                ds0 = [v for v, k, st in defs.get(url_arg.id, []) if k == 'assign']
+                joins = [v for v in ds0 if isinstance(v, ast.Call) and (U.attr_name(v) or getattr(v.func, 'id', '')) in ('urljoin_safe', 'urljoin') and len(v.args) >= 2]
+                others = [v for v in ds0 if v not in joins and not (isinstance(v, ast.Constant) and v.value is None)]
+                if joins and not others and all(normal_base(v.args[0]) and quoted_(v.args[1]) for v in joins):
+                    ok = True
             if isinstance(url_arg, ast.Attribute) and url_arg.attr == 'url' and isinstance(url_arg.value, ast.Name):
                 name = url_arg.value.id
                 srcs = [v for v, k, s in defs.get(name, []) if k != 'param']
